@@ -926,6 +926,12 @@ class AbsInt:
             return list(it.d.keys())
         if isinstance(it, SeqVar):
             return [it] if keep_vars else [AV.of_sym(it.sym)]
+        if isinstance(it, AObj) and it.cls is not None:
+            o, fn = self.p.lookup_method(it.cls, '__iter__')
+            if fn is not None:
+                r = self.call_function(fn, [it], {}, node)
+                if r is not it:
+                    return self.iterate(r, node, keep_vars)
         if isinstance(it, (list, tuple, set, frozenset, dict, range, str, bytes)):
             if isinstance(it, (set, frozenset)):
                 try:
@@ -1100,6 +1106,8 @@ class AbsInt:
             return Opaque('set of symbolic')
         if f in (int,) and args and isinstance(args[0], AV):
             return args[0]
+        if f is bool and len(args) == 1 and not _is_concrete(args[0]):
+            return self.truth(args[0], node)
         if f is ord and len(args) == 1 and isinstance(args[0], AList):
             if len(args[0].items) == 1 and not isinstance(args[0].items[0], SeqVar):
                 it = args[0].items[0]
